@@ -47,6 +47,10 @@ def scenarios(n_max=3, cores=(1, 2), ncancel=1, time_limits=True, vias=("api",),
         for c in (1, 2):
             out.append(dict(cores=c, tasks=[dict(deps=[], codes=(0,)), dict(deps=[0], codes=(0,)), dict(deps=[], codes=(0, 1))], ops=[("enq", 0), ("enq", 1), ("enq", 2)], via="api", start_fail=(0,)))
             out.append(dict(cores=c, tasks=[dict(deps=[], codes=(0,)), dict(deps=[0], codes=(0,))], ops=[("enq", 0), ("enq", 1)], via="api", log_fail=True))
+            # the log of one finished task cannot be written while more tasks than cores are ready behind it
+            out.append(dict(cores=c, tasks=[dict(deps=[], codes=(0, 1))] + [dict(deps=[], codes=(0,)) for _ in range(c + 1)], ops=[("enq", k) for k in range(c + 2)], via="api", log_fail=(0,)))
+            out.append(dict(cores=c, tasks=[dict(deps=[], codes=(0, 1)), dict(deps=[0], codes=(0,)), dict(deps=[], codes=(0,))], ops=[("enq", k) for k in range(3)], via="api", log_fail=(0,)))
+            out.append(dict(cores=c, tasks=[dict(deps=[], codes=(0,)) for _ in range(c + 1)] + [dict(deps=[0], codes=(0,))], ops=[("enq", k) for k in range(c + 2)], via="api", log_fail=(1,)))
             out.append(dict(cores=c, tasks=[dict(deps=[], codes=(1,)), dict(deps=[0], codes=(0,)), dict(deps=[], codes=(0,)), dict(deps=[], codes=(0,))],
                             ops=[("enq", 0), ("enq", 1), ("enq", 2), ("enq", 3)], via="api"))
             out.append(dict(cores=c, tasks=[dict(deps=[], codes=(0,), payload=True), dict(deps=[0], codes=(0, 1))], ops=[("enq", 0), ("enq", 1)], via="api",
